@@ -309,6 +309,13 @@ func c09NearMiss(run *common.Run) {
 				cl = append(cl, c)
 			}
 			sort.Strings(cl)
+			if len(cl) > 0 {
+				// second execution before a counterexample is believed
+				again, err := prog.Run(p, prog.Opts{})
+				if err != nil || strings.Join(prog.Keys(again.Diags), ",") != strings.Join(prog.Keys(res.Diags), ",") {
+					common.Fatalf("C09 near-miss counterexample does not reproduce: %v vs %v", prog.Keys(res.Diags), err)
+				}
+			}
 			for _, code := range cl {
 				run.Report(common.Cex{Sig: fmt.Sprintf("nearmiss|site=%s|comment=%s|code=%s", it.site.Name, it.form, code),
 					Summary: fmt.Sprintf("comment %q (@%s, %s) at %s, place %s, config %s produces %s: %v", it.text, it.kw, it.form, it.site.Name, it.place, cfg.Name, code, prog.Keys(res.Diags)),
